@@ -8,6 +8,7 @@ package main
 
 import (
 	"fmt"
+	"math"
 	"os"
 	"strconv"
 	"strings"
@@ -259,6 +260,17 @@ func monitor(ops []Op) (kind, what string, at int) {
 // ---------------------------------------------------------------------------------------------
 // generators
 
+// hugeShrink: Shrink arguments at the top of the int range, around the points where `Len()+n` and
+// `cap+n` stop being representable. Shrink(n) says "at most n extra items": every non-negative n is inside
+// the documented domain, and for these the ideal sequence (and the model, whose integers are unbounded:
+// `cap - len > n` is false) answers "nothing happens". An implementation that computes a target size from
+// n in machine integers wraps around exactly here.
+func hugeShrink(r *vlib.Rand, size int) int {
+	c := []int{math.MaxInt, math.MaxInt - 1, math.MaxInt - size, math.MaxInt - size + 1, math.MaxInt - size - 1,
+		math.MaxInt - 16, math.MaxInt - 2*size, math.MaxInt/2 + 1, math.MaxInt / 2, math.MaxInt - r.Intn(64), math.MaxInt32, 1 << 62}
+	return c[r.Intn(len(c))]
+}
+
 func genCase(r *vlib.Rand, res *vlib.Result) []Op {
 	mode := r.Intn(6)
 	res.Count(fmt.Sprintf("mode-%d", mode))
@@ -364,7 +376,10 @@ func genCase(r *vlib.Rand, res *vlib.Result) []Op {
 		case 10:
 			a := []int{0, 0, 1, 2, r.Intn(20)}[r.Intn(5)]
 			if malformed {
-				a = -1 - r.Intn(3)
+				a = []int{-1 - r.Intn(3), math.MinInt, math.MinInt + 1 + r.Intn(3)}[r.Pick(6, 1, 1)]
+			} else if r.Chance(1, 5) {
+				a = hugeShrink(r, size)
+				res.Count("shrink-huge")
 			}
 			ops = append(ops, Op{Name: "shrink", A: a})
 		}
@@ -432,7 +447,7 @@ func largeCase(r *vlib.Rand) []Op {
 		case 9:
 			ops = append(ops, Op{Name: "grow", A: []int{0, 1, size, 2 * size, r.Intn(600)}[r.Intn(5)]})
 		case 10:
-			ops = append(ops, Op{Name: "shrink", A: []int{0, 1, r.Intn(40), size}[r.Intn(4)]})
+			ops = append(ops, Op{Name: "shrink", A: []int{0, 1, r.Intn(40), size, hugeShrink(r, size)}[r.Intn(5)]})
 		}
 	}
 	// back down: pops from both ends, an exact fit now and then, pushes to the front of an exact fit
@@ -586,12 +601,15 @@ func bfs(m *vlib.Model, res *vlib.Result, maxCap int, deadline time.Time) bool {
 			applyImpl(&d, o)
 		}
 		size := d.Len()
+		_, c0, _, _, _ := d.VerifState()
 		cands := []Op{{Name: "pushfront", A: 1}, {Name: "pushback", A: 2}, {Name: "popfront"}, {Name: "popback"},
 			{Name: "front"}, {Name: "back"}, {Name: "len"},
 			{Name: "item", A: -1}, {Name: "item", A: 0}, {Name: "item", A: size - 1}, {Name: "item", A: size},
 			{Name: "set", A: -1, B: 9}, {Name: "set", A: 0, B: 9}, {Name: "set", A: size - 1, B: 9}, {Name: "set", A: size, B: 9},
 			{Name: "grow", A: 0}, {Name: "grow", A: 1}, {Name: "grow", A: size + 1},
-			{Name: "shrink", A: -1}, {Name: "shrink", A: 0}, {Name: "shrink", A: 1}, {Name: "shrink", A: 2}}
+			{Name: "shrink", A: -1}, {Name: "shrink", A: 0}, {Name: "shrink", A: 1}, {Name: "shrink", A: 2},
+			{Name: "shrink", A: math.MinInt}, {Name: "shrink", A: math.MaxInt}, {Name: "shrink", A: math.MaxInt - size},
+			{Name: "shrink", A: math.MaxInt - size + 1}, {Name: "shrink", A: math.MaxInt - c0 + 1}}
 		for _, o := range cands {
 			next := append(append([]Op{}, cur.ops...), o)
 			check(next, m, res)
@@ -612,7 +630,7 @@ func main() {
 	env := vlib.GetEnv()
 	res := vlib.NewResult("C04", "random histories in 6 modes (capacity boundaries, wrapped rings, exact fit after Shrink, malformed calls) "+
 		"plus the corpus; a case is non-trivial if it has >= 5 ops and reaches a wrapped ring state or reallocates more than once; "+
-		"every run (quick included) has one history that holds 100..300 elements (all doublings on wrapped rings, rotation, every op at that size, back down through exact fits) under the full monitor and the raw-state correspondence; distinct = different op sequence. thorough adds a BFS over every reachable (nil, cap, front, len) shape with cap <= 20 x 22 op/argument classes "+
+		"every run (quick included) has one history that holds 100..300 elements (all doublings on wrapped rings, rotation, every op at that size, back down through exact fits) under the full monitor and the raw-state correspondence; distinct = different op sequence. thorough adds a BFS over every reachable (nil, cap, front, len) shape with cap <= 20 x 27 op/argument classes "+
 		"(each new shape counts as one distinct non-trivial case)")
 	m, err := vlib.StartModel(env.Driver, "deque")
 	if err != nil {
